@@ -428,7 +428,7 @@ func replay(cfg Config, hist []Ev) (res xstate.Result, trace []string) {
 					"stale_belief": fmt.Sprint(stale[si.backend.Conn]),
 					// the SET statement the proxy sent for this very query: none, an ordinary one,
 					// or one that assigns the same variable twice (v = x, ..., v = DEFAULT)
-					"sync_set": syncSetClass(si.syncSet),
+					"sync_set":     syncSetClass(si.syncSet),
 					"session_lost": w.sessionLost(e.S),
 					// every differing component is a setting the proxy's session object lost
 					"explained_by_session_lost": fmt.Sprint(explainedByLost(comps, dirs, w.sessionLost(e.S))),
